@@ -469,8 +469,11 @@ where
                     let params = Params { maxd, bias, radius: if kind == Kind::Prm { (if longs { [50.0, 60.0, 45.0][rot % 3] } else { [6.0, 3.0, 9.0][rot % 3] }) * lvs } else if longs { 1.2 * maxd } else { radius },
                                           build_ticks: if longs { 12 } else { iters.min(30) }, seed: Some(pseed) };
                     let cl = sc.clearance.clone();
+                    // the second parameter set of a feasible scenario lists a second start state (the goal
+                    // centre: usually valid, far from the first start); the pinned planners plan from the first
+                    let starts: Vec<SP::StateType> = if si % 2 == 1 && sc.feas == 1 { vec![sc.start.clone(), sc.goal.clone()] } else { vec![sc.start.clone()] };
                     let mk_problem = || Problem {
-                        starts: vec![sc.start.clone()],
+                        starts: starts.clone(),
                         goal: Rc::new(BallGoal { space: space.clone(), center: sc.goal.clone(), r: sc.goal_r }) as Rc<dyn HGoal<SP::StateType>>,
                         checker: {
                             let cl = cl.clone();
@@ -493,6 +496,7 @@ where
                     let gr = sc.goal_r;
                     let pinfo = vec![ProblemInfo {
                         start: Some(sc.start.clone()),
+                        starts: starts.clone(),
                         goal_sat: Box::new(move |s: &SP::StateType| gsp.distance(s, &gc) <= gr),
                         feas: sc.feas,
                     }];
@@ -664,8 +668,8 @@ fn resetup_probe(ctx: &mut Ctx) {
         ];
         let (ga, gb) = (space_a.clone(), space_b.clone());
         let pinfo = vec![
-            ProblemInfo { start: Some(rv(&[10.0, 10.0])), goal_sat: Box::new(move |s: &RealVectorState| ga.distance(s, &rv(&[90.0, 90.0])) <= 5.0), feas: 1 },
-            ProblemInfo { start: Some(rv(&[1.0, 5.0])), goal_sat: Box::new(move |s: &RealVectorState| gb.distance(s, &rv(&[9.0, 5.0])) <= 0.5), feas: 1 },
+            ProblemInfo { start: Some(rv(&[10.0, 10.0])), starts: vec![rv(&[10.0, 10.0])], goal_sat: Box::new(move |s: &RealVectorState| ga.distance(s, &rv(&[90.0, 90.0])) <= 5.0), feas: 1 },
+            ProblemInfo { start: Some(rv(&[1.0, 5.0])), starts: vec![rv(&[1.0, 5.0])], goal_sat: Box::new(move |s: &RealVectorState| gb.distance(s, &rv(&[9.0, 5.0])) <= 0.5), feas: 1 },
         ];
         let mut an = Annot::new(&geoms[0], kind, params.clone());
         an.reset(run, desc.clone());
@@ -738,8 +742,8 @@ fn shrink_probe(ctx: &mut Ctx) {
         ];
         let (ga, gb) = (space_a.clone(), space_b.clone());
         let pinfo = vec![
-            ProblemInfo { start: Some(rv(&[1.0, 5.5])), goal_sat: Box::new(move |s: &RealVectorState| ga.distance(s, &rv(&[3.0, 5.5])) <= 0.4), feas: 1 },
-            ProblemInfo { start: Some(rv(&[1.0, 5.5])), goal_sat: Box::new(move |s: &RealVectorState| gb.distance(s, &rv(&[3.0, 5.5])) <= 0.4), feas: 1 },
+            ProblemInfo { start: Some(rv(&[1.0, 5.5])), starts: vec![rv(&[1.0, 5.5])], goal_sat: Box::new(move |s: &RealVectorState| ga.distance(s, &rv(&[3.0, 5.5])) <= 0.4), feas: 1 },
+            ProblemInfo { start: Some(rv(&[1.0, 5.5])), starts: vec![rv(&[1.0, 5.5])], goal_sat: Box::new(move |s: &RealVectorState| gb.distance(s, &rv(&[3.0, 5.5])) <= 0.4), feas: 1 },
         ];
         let mut an = Annot::new(&geoms[0], kind, params.clone());
         an.reset(run, desc.clone());
